@@ -462,7 +462,7 @@ def _b_worker(args):
             if E.fp.tiny_sites:
                 BIG = irz.RV(Fraction(1, 2**940))
                 extra = z3.And([(z3.Or(x >= BIG, x <= -BIG) if irz.contains_uf(x) else z3.Or(x == 0, x >= BIG, x <= -BIG)) for x in E.fp.tiny_sites])   # stated exclusion: quantities guarded by +DBL_MIN are not within 2^-940 of zero (inputs may be exactly zero)
-            res = irz.check_obligations(E, extra)
+            res = getattr(E, 'sealed', []) + irz.check_obligations(E, extra)
             for (name, verdict, mdl, dt) in res:
                 out['obl'] += 1; out['solver_s'] += dt
                 if verdict == 'discharged': out['discharged'] += 1
